@@ -371,11 +371,14 @@ impl WorkerTree {
     }
 
     fn update_external_dependencies(&mut self, path: &Path) {
-        let node_indexes = self
+        // the path itself, or the files of the directory it designates (they are not
+        // sources: nothing else tells that they changed with their directory)
+        let node_indexes: Vec<_> = self
             .external_dependencies
-            .get(path)
-            .map(|nodes| nodes.iter().copied().collect::<Vec<_>>())
-            .unwrap_or_default();
+            .iter()
+            .filter(|(dependency, _)| dependency.starts_with(path))
+            .flat_map(|(_, nodes)| nodes.iter().copied())
+            .collect();
 
         for index in node_indexes {
             self.restart_work(index);
